@@ -41,13 +41,14 @@ def _limit(mem_gb):
     return f
 
 
-def run_harness(name, target_dir, timeout, mem_gb, extra=()):
+def run_harness(name, target_dir, timeout, mem_gb, extra=(), harness=None):
+    harness = harness or HARNESS
     env = dict(os.environ, CARGO_TARGET_DIR=target_dir, CARGO_NET_OFFLINE='true')
     env.pop('RUSTFLAGS', None)
     cmd = ['cargo', 'kani', '-Z', 'stubbing', '-Z', 'unstable-options', '--harness', name, '--output-format', 'terse'] + list(extra)
     t0 = time.time()
     try:
-        p = subprocess.Popen(cmd, cwd=HARNESS, env=env, stdout=subprocess.PIPE, stderr=subprocess.STDOUT, text=True, preexec_fn=_limit(mem_gb))
+        p = subprocess.Popen(cmd, cwd=harness, env=env, stdout=subprocess.PIPE, stderr=subprocess.STDOUT, text=True, preexec_fn=_limit(mem_gb))
         try:
             out, _ = p.communicate(timeout=timeout)
             rc = p.returncode
@@ -78,14 +79,15 @@ def run_harness(name, target_dir, timeout, mem_gb, extra=()):
     return r
 
 
-def playback(name, target_dir, timeout):
+def playback(name, target_dir, timeout, harness=None):
+    harness = harness or HARNESS
     """Concrete playback of a failing harness: Kani prints a unit test with the counterexample's bytes; the test is run
     natively (cargo kani playback) in a scratch copy of the harness crate. Returns (reproduced, detail)."""
     env = dict(os.environ, CARGO_TARGET_DIR=target_dir, CARGO_NET_OFFLINE='true')
     env.pop('RUSTFLAGS', None)
     cmd = ['cargo', 'kani', '-Z', 'stubbing', '-Z', 'unstable-options', '-Z', 'concrete-playback', '--concrete-playback=print', '--harness', name, '--output-format', 'terse']
     try:
-        p = subprocess.run(cmd, cwd=HARNESS, env=env, capture_output=True, text=True, timeout=timeout, preexec_fn=_limit(16))
+        p = subprocess.run(cmd, cwd=harness, env=env, capture_output=True, text=True, timeout=timeout, preexec_fn=_limit(16))
     except subprocess.TimeoutExpired:
         return (None, 'playback generation timed out')
     blocks = re.findall(r'```\n(.*?)```', p.stdout, flags=re.S)
@@ -96,7 +98,7 @@ def playback(name, target_dir, timeout):
     test_name = re.search(r'fn (kani_concrete_playback_\w+)\(\)', test_src).group(1)
     scratch = os.path.join(HERE, '.work', 'playback-%d-%s' % (os.getpid(), name))
     shutil.rmtree(scratch, ignore_errors=True)
-    shutil.copytree(HARNESS, scratch, ignore=shutil.ignore_patterns('target'))
+    shutil.copytree(harness, scratch, ignore=shutil.ignore_patterns('target'))
     src = open(os.path.join(scratch, 'src', 'proofs.rs')).read()
     open(os.path.join(scratch, 'src', 'proofs.rs'), 'w').write(src + '\n' + test_src + '\n')
     env2 = dict(env); env2.pop('CARGO_TARGET_DIR', None)
@@ -114,7 +116,8 @@ def playback(name, target_dir, timeout):
     return (failed, ('native playback panics: %s' % (msg.group(1).strip() if msg else '?')) if failed else 'native playback passes (not reproduced)')
 
 
-def run(names, tier, seed, work, jobs):
+def run(names, tier, seed, work, jobs, harness=None, repo='/repo'):
+    harness = harness or HARNESS
     """-> {obligation: result dict in the format of the Engine B results}"""
     results = {}
     t_quick, t_thor = 600, 3600
@@ -123,10 +126,10 @@ def run(names, tier, seed, work, jobs):
     base_td = os.path.join(work, 'target-kani')
     # one shared target dir: compile once up front, then the harnesses only run kani-compiler / cbmc steps
     env = dict(os.environ, CARGO_TARGET_DIR=base_td, CARGO_NET_OFFLINE='true'); env.pop('RUSTFLAGS', None)
-    lock_src, lock_dst = '/repo/Cargo.lock', os.path.join(HARNESS, 'Cargo.lock')
+    lock_src, lock_dst = os.path.join(repo, 'Cargo.lock'), os.path.join(harness, 'Cargo.lock')
     if os.path.exists(lock_src) and not os.path.exists(lock_dst): shutil.copy(lock_src, lock_dst)
     t0 = time.time()
-    pre = subprocess.run(['cargo', 'kani', '-Z', 'stubbing', '-Z', 'unstable-options', '--only-codegen'], cwd=HARNESS, env=env, capture_output=True, text=True)
+    pre = subprocess.run(['cargo', 'kani', '-Z', 'stubbing', '-Z', 'unstable-options', '--only-codegen'], cwd=harness, env=env, capture_output=True, text=True)
     t_build = time.time() - t0
     if pre.returncode != 0:
         for n in names:
@@ -145,7 +148,7 @@ def run(names, tier, seed, work, jobs):
         slots.put(d)
     def work(h):
         d = slots.get()
-        try: return run_harness(h, d, t_quick if tier == 'quick' else t_thor, 8 if tier == 'quick' else 16)
+        try: return run_harness(h, d, t_quick if tier == 'quick' else t_thor, 8 if tier == 'quick' else 16, harness=harness)
         finally: slots.put(d)
     per = {}
     with concurrent.futures.ThreadPoolExecutor(max_workers=nworkers) as pool:
@@ -163,7 +166,7 @@ def run(names, tier, seed, work, jobs):
         res['extra'] = {'harnesses': [{k: r.get(k) for k in ('harness', 'outcome', 'checks', 'covers', 'solver_s', 'seconds', 'detail')} for r in rs], 'kani_build_s': round(t_build, 1)}
         for r in rs:
             if r['outcome'] == 'fail':
-                rep, detail = playback(r['harness'], base_td, 900)
+                rep, detail = playback(r['harness'], base_td, 900, harness=harness)
                 res['violations'].append({'label': '%s: %s' % (re.sub(r'_(?:len|l|b|k)?\d.*$', '', r['harness']), r['detail'][:160]), 'harness': r['harness'], 'replay': None,
                                           'confirmed_by': {'reproduced': bool(rep), 'detail': detail}})
             elif r['outcome'] != 'ok':
